@@ -1057,7 +1057,7 @@ def place(arr, mask, vals, *args, **kwargs) -> None:
 @implements(np.put)
 def put(a, ind, v, *args, **kwargs) -> None:
     _validate_units_consistency_v2(a.units, v)
-    np.put._implementation(np.asarray(a), ind, np.asarray(v))
+    np.put._implementation(np.asarray(a), ind, np.asarray(v), *args, **kwargs)
 
 
 @implements(np.put_along_axis)
